@@ -249,7 +249,8 @@ def check_enum(cx, fn, rep, facts, partial):
             allok = False
             continue
         if e['k'] != 'Match':
-            if not (len(atoms) == 1 and atoms[0][0] == 'empty' and atoms[0][2] is True and C.tail_ok(e)):
+            from ..emptiness import empty_evidence
+            if not (len(atoms) == 1 and empty_evidence(atoms) and C.tail_ok(e)):
                 S.bad('SUM-ORD', 'enum-empty', 'constant result emitted outside the empty-enum case or not Equal', b)
                 allok = False
             continue
